@@ -283,6 +283,14 @@ def check(prog, res, tier):
                         unknown_ok=benign_unknown),
             seen_rows['n'], 'a row handed to the CSV writer (writerow / writerows)'))
 
+    # ---- C20.a the command-line glue of the two CSV tools
+    from .tools import cli_glue_ob
+    for mod, tool, ip, op_, im, om, opts in (('cli.mci_csv_to_ipm', 'mci_csv_to_ipm', 'in_csv', 'out_ipm', 'r', 'wb', ('out_encoding',)),
+                                            ('cli.mci_ipm_to_csv', 'mci_ipm_to_csv', 'in_ipm', 'out_csv', 'rb', 'w', ('in_encoding',))):
+        ob = cli_glue_ob(prog, res, 'C20.a', mod, tool, ip, op_, im, om, passthrough=opts)
+        if ob is not None:
+            res.add(ob)
+
     # ---- C20.b producible columns
     cfg = prog.config_literal()
     bc = cfg.get('bit_config', {})
